@@ -224,7 +224,27 @@ def period_of(prog, t, var, depth=0):
         return None
     t = prog.strip_wrappers(t)
     if t[0] == "sub" and t[2][0] == "const":
+        b = t[1]
+        if b[0] in ("carried", "loopout") and b[1] in prog.loops:
+            nxt = prog.loops[b[1]].next.get(b[2])
+            if nxt is not None and any(s[0] == "mut" and s[2] == "append" and len(s[3]) == 1
+                                       and period_of(prog, s[3][0], prog.loops[b[1]].target, depth + 1) is not None for s in walk(nxt)):
+                # element k of a list that collects one period-specific object per iteration: one period's object
+                return ("fixed", t[2])
         return period_of(prog, t[1], var, depth + 1)
+    if t[0] == "carried" and t[1] in prog.loops:
+        # the value a name had at the end of an EARLIER iteration: if the loop assigns it a period-specific object,
+        # this is the object of another period
+        lp0 = prog.loops[t[1]]
+        nxt = lp0.next.get(t[2])
+        if nxt is not None and not (nxt[0] == "mut"):
+            inner = None
+            for s in walk(nxt):
+                if s[0] == "call" and callee_name(s) in FACTORY_PERIOD_KW:
+                    inner = period_of(prog, s, lp0.target, depth + 1)
+                    break
+            if inner is not None and not isinstance(inner[0], str) and inner[0] != 0:
+                return ("fixed", ("const", "an earlier iteration of the loop"))
     if t[0] in ("phi", "ifexp"):
         a, b = period_of(prog, t[2], var, depth + 1), period_of(prog, t[3], var, depth + 1)
         if a is None:
